@@ -191,6 +191,14 @@ impl<T> VxIter<T> {
 /// an await that does not return before something outside the task happens (a client round trip, a timer, a message of another
 /// task, a child process): the task must not hold, while it waits, a lock exclusively that handlers need
 pub open spec fn may_wait_long(h: Held) -> bool { !h.exclusive() }
+/// waiting for the CLIENT's answer (send_request and whatever awaits it, the oneshot receiver): the answer is dispatched by the main loop,
+/// which runs `on_did_change_text_document` inline (analysis.read/write, workspace_manager.read/write) — a guard on `analysis` or
+/// `workspace_manager` in ANY mode (a read guard blocks the writer, and behind a queued writer every later reader) or a bookkeeping mutex
+/// held across the wait can keep the answer from ever being dispatched. Only `reload_lock` (which no handler takes) may be held.
+pub open spec fn client_ok(h: Held) -> bool { forall|l: L| #[trigger] h.locks@.contains_key(l) ==> l == L::ReloadLock }
+/// waiting for results of spawned tasks that themselves take the locks `needs` (channel `recv`): none of them may be held in any mode
+/// (tokio's RwLock is FIFO-fair: one queued writer and the tasks' `read()` wait behind it, the writer behind us, we behind the tasks)
+pub open spec fn join_ok(h: Held, needs: Set<L>) -> bool { forall|l: L| #[trigger] needs.contains(l) ==> !h.locks@.contains_key(l) }
 
 //@@include c28_locks/shims.rs
 
